@@ -45,6 +45,8 @@ fn leaves_boundary() -> Vec<X> {
         float(-0.0),
         float(0.0),
         float(2.0),
+        // the integer whose bit pattern is that of the float 2.0
+        int(4611686018427387904),
         int(2),
         int(0),
         int(63),
@@ -120,7 +122,7 @@ fn preamble() -> Vec<X> {
     vec![traced_fn(), assign("x", int(5)), assign("y", float(1.5))]
 }
 
-const N_CONTEXTS: usize = 16;
+const N_CONTEXTS: usize = 17;
 
 /// Places expression `e` in context number `c`.
 fn in_context(e: &X, c: usize) -> Option<Vec<X>> {
@@ -189,6 +191,17 @@ fn in_context(e: &X, c: usize) -> Option<Vec<X>> {
             p.push(assign("id_", func(&["v"], vec![id("v")])));
             p.push(assign("w", callf("id_", vec![list(vec![e.clone()])])));
             p.push(print(id("w")));
+        }
+        16 => {
+            // register pressure: 236 live locals in a function, then a 13-element list literal
+            // (more elements than free registers: they are pushed in batches)
+            let mut body: Vec<X> = (0..236).map(|i| assign(&format!("a{i}"), int(i))).collect();
+            let mut elems = vec![e.clone()];
+            elems.extend((1..13).map(int));
+            body.push(assign("z", list(elems)));
+            body.push(tuple(vec![id("a0"), id("a235"), id("z")]));
+            p.push(assign("pressure", func(&[], body)));
+            p.push(print(callf("pressure", vec![])));
         }
         _ => return None,
     }
